@@ -257,7 +257,9 @@ class Extractor:
             changed = tuple((p, env[i + 1]) for i, p in enumerate(self._params) if env.get(i + 1) != p)
             if env.get(LOG):
                 changed += ((LOG, env[LOG]),)
-            return ("state", ("stop", bb), changed)
+            named = tuple(sorted((body.local_name(l), v) for l, v in env.items() if isinstance(l, int) and l > body.argc and body.local_name(l)
+                                 and v != ("local", l)))
+            return ("state", ("stop", bb, named), changed)
         self.nodes += 1
         if self.nodes > self.max_nodes:
             raise Unsupported("expression too large in %s" % body.key)
@@ -595,6 +597,8 @@ def term_str(t, depth=0):
         return "match %s {%s, _ => %s}" % (term_str(t[1]), ", ".join("%s => %s" % (v, term_str(x)) for v, x in t[2]), term_str(t[3]))
     if k == "index":
         return "%s[%s]" % (term_str(t[1]), term_str(t[2]))
+    if k == "stop":
+        return "stop(bb%s)" % t[1]
     if k == "divc":
         return "(%s)/%d" % (lin_str(t[1]), t[2])
     if k == "upd":
